@@ -19,9 +19,18 @@ import (
 const groundK = 3
 
 // heapTypingAxioms renders (1) for the components the function's script declares.
-func (fc *FnCtx) heapTypingAxioms() string {
+func (fc *FnCtx) heapTypingAxioms(small bool) string {
 	var b strings.Builder
 	w := "H0_W"
+	if small {
+		// a PREFERENCE, not a fact: short slices / small readers everywhere (tried first; dropped when unsatisfiable)
+		for _, p := range fc.root.Params {
+			if _, ok := types.Unalias(p.Type()).Underlying().(*types.Slice); ok {
+				n := "p_" + p.Name()
+				fmt.Fprintf(&b, "(assert (and (<= (slen %s) 8) (<= (+ (soff %s) (scap %s)) 24)))\n", n, n, n)
+			}
+		}
+	}
 	for _, k := range fc.compList {
 		srt := fc.comps[k]
 		h := compInit(k)
@@ -41,6 +50,9 @@ func (fc *FnCtx) heapTypingAxioms() string {
 		case "Slice":
 			cond = and(app("<=", "0", soff(cell)), app("<=", "0", slen(cell)), app("<=", slen(cell), scap(cell)), app("<", scap(cell), "9223372036854775808"),
 				implies(eq(sarr(cell), nilPtr), eq(scap(cell), "0")), app(">=", app("root", sarr(cell)), "0"), app("<", app("root", sarr(cell)), w))
+			if small {
+				cond = and(cond, app("<=", slen(cell), "8"), app("<=", app("+", soff(cell), scap(cell)), "24"))
+			}
 		case "Ptr":
 			cond = and(app(">=", app("root", cell), "0"), app("<", app("root", cell), w))
 		case "Iface":
@@ -65,6 +77,37 @@ func (fc *FnCtx) heapTypingAxioms() string {
 	_, hasPos := fc.ufs["sf_bytes_rdpos"]
 	if hasLen && hasPos {
 		b.WriteString("(assert (forall ((hr X_bytes_Reader)) (! (and (<= 0 (sf_bytes_rdpos hr)) (<= (sf_bytes_rdpos hr) (sf_bytes_rdlen hr))) :pattern ((sf_bytes_rdpos hr)) :pattern ((sf_bytes_rdlen hr)))))\n")
+		if small {
+			b.WriteString("(assert (forall ((hr X_bytes_Reader)) (! (<= (sf_bytes_rdlen hr) 256) :pattern ((sf_bytes_rdlen hr)))))\n")
+		}
+	}
+	return b.String()
+}
+
+// renderForReplay is renderOne without the final check-sat and, when light is set, without the QUANTIFIED assumptions
+// that stem from earlier obligations of the function. Those are lemmas (checked consequences of what precedes them), so
+// leaving them out changes nothing logically but spares the candidate search a lot of E-matching.
+func (fc *FnCtx) renderForReplay(target *Obligation, light bool) string {
+	var b strings.Builder
+	b.WriteString(fc.preamble())
+	for _, it := range fc.script {
+		if it.ob == nil {
+			b.WriteString(it.cmd + "\n")
+			continue
+		}
+		ob := it.ob
+		if ob == target {
+			fmt.Fprintf(&b, "(assert (and %s (not %s)))\n", ob.Guard, ob.Cond)
+			return b.String()
+		}
+		if !ob.Cover {
+			if c := implies(ob.Guard, ob.Cond); c != "true" {
+				if light && (strings.Contains(c, "(forall ") || strings.Contains(c, "(exists ")) {
+					continue
+				}
+				b.WriteString("(assert " + c + ")\n")
+			}
+		}
 	}
 	return b.String()
 }
